@@ -241,7 +241,7 @@ def record(cfg, cands, ballots, mode="explore", max_paths=400, names=None, cand_
             key = k2
         t = dict(hdr0[0])
         t["events"] = evs
-        t["path_p"] = rat(prefix_p[full])
+        t["_path_p"] = rat(prefix_p[full])
         traces.append(t)
     return traces, {"paths": len(paths), "explored": True, "total_p": rat(sum(p for _, p in paths))}
 
